@@ -115,6 +115,47 @@ def src_path(h):
     return os.path.join(VERIF, "harness", h["src"])
 
 
+def gen_extract(h):
+    """spec key gen = [(outfile, repo_source, [function names], suffix)]: copy the DEFINITIONS of the named functions out of the
+    current /repo source into <work>/gen/<harness>/<outfile>, each renamed <name><suffix>, so that a harness can compile those
+    real bodies a second time against stand-ins for their callees (regenerated from /repo's working tree on every run).
+    Returns the -I directory or None."""
+    g = h.get("gen")
+    if not g:
+        return None
+    d = os.path.join(WORK, "gen", h["name"])
+    os.makedirs(d, exist_ok=True)
+    for outfile, src, names, suffix in g:
+        txt = open(os.path.join(REPO, src)).read()
+        out = ["/* generated by vp/check.py from %s of the working tree: do not edit */" % src]
+        for n in names:
+            m = None
+            for cand in re.finditer(r"^(?:[A-Za-z_][A-Za-z0-9_ \*]*?[ \*])?%s\s*\(" % re.escape(n), txt, re.M):
+                depth, k = 1, cand.end()      # a definition: the parameter list is followed by "{" (a prototype by ";")
+                while k < len(txt) and depth:
+                    depth += txt[k] == "("
+                    depth -= txt[k] == ")"
+                    k += 1
+                if re.match(r"\s*\{", txt[k:k + 40]):
+                    m = cand
+                    break
+            if not m:
+                raise RuntimeError("gen_extract: no definition of %s in %s" % (n, src))
+            # the definition runs from the start of that line (or the line before: return type on its own line) to the first "}" in column 0
+            start = txt.rfind("\n", 0, m.start()) + 1
+            prev = txt.rfind("\n", 0, max(start - 1, 0)) + 1
+            if re.match(r"^(static\s+)?[A-Za-z_][A-Za-z0-9_ \*]*$", txt[prev:start - 1].strip()) and txt[prev:start - 1].strip() and not txt[prev:start - 1].strip().endswith(";"):
+                start = prev
+            end = txt.find("\n}", m.end())
+            if end < 0:
+                raise RuntimeError("gen_extract: unterminated definition of %s" % n)
+            body = txt[start:end + 2]
+            out.append(re.sub(r"\b%s\b" % re.escape(n), n + suffix, body, count=1))
+        with open(os.path.join(d, outfile), "w") as f:
+            f.write("\n\n".join(out) + "\n")
+    return d
+
+
 def included_repo_units(path):
     """repo .c files textually included by the harness (so the native link does not add them twice)"""
     inc = set()
@@ -153,6 +194,11 @@ def build_goto(h, tier, wd, log):
     defs = defines_for(h, tier)
     cmd = ["goto-cc", "-DVP_CBMC", "-D" + GUARD, "-DHAVE_CONFIG_H", "-DHWLOC_INSIDE_LIBHWLOC"] + cfg_includes()
     cmd += ["-D%s=%s" % (k, v) for k, v in defs.items()]
+    gd = gen_extract(h)
+    if gd:
+        cmd += ["-I" + gd]
+    if h.get("typed_realloc"):      # see env/vp_typed_realloc.h: realloc() call sites become typed allocations
+        cmd += ["-include", os.path.join(VERIF, "env", "vp_typed_realloc.h")]
     cmd += [src_path(h)]
     cmd += [os.path.join(VERIF, "env", e) for e in h.get("env", ["vp_alloc.c"])]
     cmd += [os.path.join(REPO, u) for u in h.get("units", [])]
@@ -320,6 +366,9 @@ def native_build(h, tier, wd, log):
               "-DVP_REPLAY", "-D" + GUARD, "-DHAVE_CONFIG_H", "-DHWLOC_INSIDE_LIBHWLOC", "-DVP_ENTRY=" + h["entry"],
               "-DHWLOC_PLUGINS_PATH=\"/nonexistent\"", "-DRUNSTATEDIR=\"/nonexistent\""] + cfg_includes()
     common += ["-D%s=%s" % (k, v) for k, v in defs.items()]
+    gd = gen_extract(h)
+    if gd:
+        common += ["-I" + gd]
     # compile the (slow) library units once per source hash, shared by all harnesses
     objdir = os.path.join(WORK, "native_objs")
     os.makedirs(objdir, exist_ok=True)
@@ -700,8 +749,10 @@ def main():
                   outside_claim=getattr(mod, "OUTSIDE", []),
                   explanation=getattr(mod, "EXPLANATION", ""),
                   exhaustive=False))
-    os.makedirs(EVID, exist_ok=True)
-    with open(os.path.join(EVID, pid + ".json"), "w") as f:
+    # a partial run (--only) is a development aid: it must not replace the evidence of the full check
+    evdir = EVID if only is None else os.path.join(WORK, "evid_partial")
+    os.makedirs(evdir, exist_ok=True)
+    with open(os.path.join(evdir, pid + ".json"), "w") as f:
         json.dump(ev, f, indent=1, sort_keys=True)
         f.write("\n")
     print("[%s] %d/%d harnesses passed, %d violations, %d inconclusive/error, %.1fs" % (pid, len(passed), len(recs), len(violations), len(errors) + len(inconclusive), wall))
